@@ -6,7 +6,7 @@ CONSTANTS NTx = 2
           TopKeys = {"a"}
           SubKeys = {"a"}
           PriorKeys = {"a"}
-          TopOps = {"put", "get", "rec", "notify"}
+          TopOps = {"put", "rec", "notify"}
           SubOps = {"put", "get", "rec", "notify"}
           MinCalls = 1
           MaxCalls = 1
